@@ -41,6 +41,8 @@ impl<T> InnerQueue<T> {
             return Err(t);
         }
         self.queue.push(t);
+        #[cfg(may_verif)]
+        may_queue::verif::point(may_queue::verif::site::CH_MPSC_SEND_PUSHED, self as *const _ as usize);
         if let Some(w) = self.to_wake.take() {
             w.unpark();
         }
@@ -56,6 +58,8 @@ impl<T> InnerQueue<T> {
         let cur = Blocker::current();
         // register the waiter
         self.to_wake.store(cur.clone());
+        #[cfg(may_verif)]
+        may_queue::verif::point(may_queue::verif::site::CH_MPSC_RECV_REGISTERED, self as *const _ as usize);
         // re-check the queue
         match self.try_recv() {
             Err(TryRecvError::Empty) => {
@@ -77,6 +81,8 @@ impl<T> InnerQueue<T> {
         match self.queue.pop() {
             Some(data) => Ok(data),
             None => {
+                #[cfg(may_verif)]
+                may_queue::verif::point(may_queue::verif::site::CH_MPSC_TRY_EMPTY, self as *const _ as usize);
                 if likely(self.channels.load(Ordering::Acquire) > 0) {
                     Err(TryRecvError::Empty)
                 } else {
@@ -92,6 +98,8 @@ impl<T> InnerQueue<T> {
     }
 
     pub fn drop_chan(&self) {
+        #[cfg(may_verif)]
+        may_queue::verif::point(may_queue::verif::site::CH_MPSC_DROPCHAN_BEFORE, self as *const _ as usize);
         match self.channels.fetch_sub(1, Ordering::AcqRel) {
             1 => self.to_wake.take().map(|w| w.unpark()).unwrap_or(()),
             n if n > 1 => {}
@@ -101,6 +109,8 @@ impl<T> InnerQueue<T> {
 
     pub fn drop_port(&self) {
         self.port_dropped.store(true, Ordering::Release);
+        #[cfg(may_verif)]
+        may_queue::verif::point(may_queue::verif::site::CH_MPSC_DROPPORT_FLAGGED, self as *const _ as usize);
         // clear all the data
         while self.queue.pop().is_some() {}
     }
